@@ -130,6 +130,7 @@ def gen(rng):
 
 
 def run(ctx):
+    C.source_tie(ctx, 'C02', [('taurex/util/emission.py', 'black_body', 'gen_black_body', ('PI', 'PLANCK', 'SPDLIGT', 'KBOLTZ'))])
     rng = ctx.rng
     obs, exprs, specs = [], [], []
     for i in range(ctx.n(60, 500)):
